@@ -8,11 +8,8 @@ import (
 )
 
 func cleanEmptyLines(code string) string {
-	lines := strings.Split(strings.TrimSpace(code), "\n")
-	for i, line := range lines {
-		lines[i] = strings.TrimRight(line, " ")
-	}
-	return strings.Join(lines, "\n")
+	// lines are not trimmed one by one: a line may belong to a multi-line string literal
+	return strings.TrimSpace(code)
 }
 
 type CompileResult struct {
